@@ -155,7 +155,7 @@ def c_init(ctx, case):
     ini = case["init"]
 
     def km():
-        method = np.array(ini["init"], dtype=float, copy=True) if ini["method"] == "array" else ini["method"]
+        method = np.array(ini["init"], copy=True) if ini["method"] == "array" else ini["method"]
         return KMeansMachine(k, init_method=method, max_iter=case["iters"], convergence_threshold=None,
                              random_state=int(ini["seed"]))
 
